@@ -80,11 +80,15 @@ def _cases(tier, seed):
         vs = [[[kind, rng.randrange(K)]] for kind in transforms.KINDS + transforms.EXTRA_KINDS]
         if os.environ.get("VERIF_ALLK"):  # development sweep: the whole variant universe
             vs = [[[kind, k]] for kind in transforms.KINDS + transforms.EXTRA_KINDS for k in range(K)]
-        if tier != "quick":
-            for _ in range(6):
-                vs.append([[rng.choice(transforms.KINDS), rng.randrange(K)] for _ in range(rng.choice([2, 3]))])
+        # two- and three-step chains are fixed per file (finite universe): the seed picks which ones run
+        crng = random.Random(harness.stable_hash("c05chains", f))
+        chains = [[[crng.choice(transforms.KINDS), crng.randrange(3)] for _ in range(crng.choice([2, 3]))] for _ in range(8)]
+        if os.environ.get("VERIF_ALLK"):
+            vs.extend(chains if tier != "quick" else chains[:2])
+        elif tier != "quick":
+            vs.extend(rng.sample(chains, 4))
         else:
-            vs.append([[rng.choice(transforms.KINDS), rng.randrange(K)] for _ in range(2)])
+            vs.append(chains[rng.randrange(2)])
         cases.append({"file": f, "variants": vs})
     try:
         from lib import gen_vhdl
